@@ -251,7 +251,7 @@ def _get_connection_contract(vc, mode_name, c1_waiting, ctx_registered, c1_tunne
     # connection instead: c1_tunnel.
     inner, _ = sym_conn(vc, "inner")
     h1 = mk_plain_layer(vc, H + ":HttpClient", mk_context(vc, client, inner if c1_tunnel else c1), tag="c1-handler")
-    hsrv = mk_plain_layer(vc, H + "._http1:Http1Server", None)
+    hsrv = mk_plain_layer(vc, H + "._http1:Http1Server", mk_context(vc, client, xs_conn))  # Http1Server(self.context.fork())
     hx = mk_plain_layer(vc, H + ":HttpClient", mk_context(vc, client, xs_conn), tag="ctx-handler")
     earlier = mk_cmd(vc, s1)  # invariant W: whatever waits on c1 matches c1
     conns = [(client, hsrv), (c1, h1)] + ([(xs_conn, hx)] if ctx_registered else [])
@@ -304,8 +304,8 @@ def _get_connection_contract(vc, mode_name, c1_waiting, ctx_registered, c1_tunne
             vc.ensure("reuse.not_failed", Not(tr_(vc, conn.error)))
             vc.ensure("reuse.not_pending", dict_lookup(vc, layer.waiting_for_establishment, conn) is None)
             # the request will be written by the HTTP client at the bottom of the registered stack: it must write to `conn`
-            vc.ensure_kf("reuse.handler_writes_to_this_connection", dict_lookup(vc, layer.connections, conn).context.server is conn,
-                         "KF-C08-1", c1_tunnel and conn is c1)
+            # (the tunnel-entry case was known finding KF-C08-1; repaired in /repo by a fix: commit, unconditional now)
+            vc.ensure("reuse.handler_writes_to_this_connection", dict_lookup(vc, layer.connections, conn).context.server is conn)
         return
     # a new upstream connection attempt is started
     vc.ensure("new.start_event", isa(event, _cls("mitmproxy.proxy.events:Start")))
@@ -376,10 +376,11 @@ def s_register(vc):
     ocmd = mk_cmd(vc, conn_spec(other))
     streams = [mk_plain_layer(vc, HS, None, stream_id=2 * i + 1) for i in range(n)]
     ostream = mk_plain_layer(vc, HS, None, stream_id=99)
-    hsrv = mk_plain_layer(vc, H + "._http1:Http1Server", None)
+    ctxsrv = mk_server(vc, "ctxsrv", address=None)
+    hsrv = mk_plain_layer(vc, H + "._http1:Http1Server", mk_context(vc, client, ctxsrv))  # Http1Server(self.context.fork())
     hc = mk_plain_layer(vc, H + ":HttpClient", mk_context(vc, client, c))
     ho = mk_plain_layer(vc, H + ":HttpClient", mk_context(vc, client, other))
-    layer = mk_http_layer(vc, HTTPMode.regular, client, mk_server(vc, "ctxsrv", address=None), [(client, hsrv), (c, hc), (other, ho)],
+    layer = mk_http_layer(vc, HTTPMode.regular, client, ctxsrv, [(client, hsrv), (c, hc), (other, ho)],
                           [(other, [ocmd]), (c, cmds)], list(zip(cmds, streams)) + [(ocmd, ostream)])
     errmsg = vc.sym_str("err")
     if failed:
